@@ -121,6 +121,27 @@ impl Check for C15Check {
                 p.body.insert(at, pick.clone());
                 p.body.insert(at, pick);
             }
+            if g.w.chance(1, 4) {
+                // a `for` over a collection with equal elements whose body picks a value for a
+                // fresh variable: every iteration has its own variable, the picks are independent
+                let x = g.fresh_var();
+                let v = g.fresh_var();
+                let e = g.var_or_atom(&scope);
+                let mut coll = vec![e.clone(), e.clone()];
+                if g.w.chance(1, 3) {
+                    coll.push(g.var_or_atom(&scope));
+                }
+                if g.w.chance(1, 3) {
+                    coll.push(e);
+                }
+                let items = g.proper_list(&scope, 3);
+                let mut body = vec![G::Call(Rel::Member, vec![T::V(v), items])];
+                if g.w.chance(1, 2) {
+                    body.push(G::Neq(T::V(v), T::V(x)));
+                }
+                let at = g.w.below(p.body.len() + 1);
+                p.body.insert(at, G::For(x, coll, vec![G::Fresh(vec![v], body)]));
+            }
             p
         };
         let cfg = gen_search::sim_cfg(&mut st.schedule, 200_000);
@@ -164,7 +185,9 @@ impl Check for C15Check {
 
     fn rule(&self) -> String {
         "case = (a) a generated search program with two program-defined recursive relations whose step clauses introduce fresh \
-         variables, invoked 2-4 times in one conjunction (directly, through closures, in both clauses of a conde), x schedule \
+         variables, invoked 2-4 times in one conjunction (directly, through closures, in both clauses of a conde), in a quarter of the \
+         programs also a `for` over a collection with equal elements whose body picks a value for a fresh variable (one \
+         variable per iteration), x schedule \
          (leaf timing, yields, reorders) x consumer script over one Query (re-runs, up to three interleaved iterators, \
          drops): every exhausted iterator returns the reference interpreter's multiset (new variables per unfolding), a \
          partial one a sub-multiset; or (b) one of 12 macro-written corpus relations (shadowing, sibling scopes, one closure goal object solved twice, pattern arms \
